@@ -105,6 +105,42 @@ def run_case(acc, cseed, tmpdir):
             bad("malformed-hash-accepted", hash=repr(hx)[:80])
         except Exception:
             pass
+    # look-alikes of a good hash: same or nearly the same length, one or two characters
+    # exchanged (signs, prefixes, underscores, non-ASCII digits, blanks ...).  Anything
+    # that is not 64 hex digits must be refused - except that blanks between the digits
+    # may be tolerated, in which case the text to sign must be that of the 32 bytes
+    good = rng.randbytes(32).hex()
+    from .c02 import string_variants
+    extra = [("0x-62", "0x" + good[2:]), ("minus-63", "-" + good[1:]), ("plus-63", "+" + good[1:]),
+             ("underscore-in", good[:4] + "_" + good[5:]), ("nl-63", good[1:] + "\n"),
+             ("blank-63", " " + good[1:]), ("spaced", " ".join(good[i:i + 2] for i in
+                                                              range(0, 64, 2))),
+             ("nl-first", "\n" + good), ("tab-last", good + "\t")]
+    for lab, hx in string_variants(good) + extra:
+        acc.evaluations += 1
+        acc.count("refusals_checked")
+        strict = len(hx) == 64 and all(c in "0123456789abcdefABCDEF" for c in hx)
+        try:
+            lenient = bytes.fromhex(hx) if all(c in "0123456789abcdefABCDEF \t\n\r\x0b\x0c"
+                                               for c in hx) else None
+        except ValueError:
+            lenient = None
+        try:
+            sv = SignerVersion(hx, 3)
+        except Exception:
+            if strict:
+                bad("valid-signer-version-refused", hash=hx, variant=lab)
+            continue
+        want = None
+        if strict:
+            want = hx.lower()
+        elif lenient is not None and len(lenient) == 32:
+            want = lenient.hex()
+        if want is None:
+            bad("malformed-hash-accepted:%s" % lab.split("-")[0], hash=repr(hx)[:90])
+        elif sv.msg != "RSK_powHSM_signer_%s_iteration_3" % want or sv.hash != want:
+            bad("text-to-sign-not-canonical:hash-with-blanks", hash=repr(hx)[:90],
+                text=sv.msg[:100])
 
     # ------------------------------------------------------- signapp in-process --
     areas = ihex.gen_areas(rng, max_areas=3, multi_zone=False)
